@@ -821,6 +821,10 @@ impl MachineState {
             } else if !max_steps.map(|n| n.is_integer()).unwrap_or(false) {
                 self.fail = true;
                 return Ok(());
+            } else if max_steps.map(|n| n.is_negative()).unwrap_or(false) {
+                // a negative length that does not fit a machine word is negative all the same
+                self.fail = true;
+                return Ok(());
             }
         }
 
